@@ -95,6 +95,11 @@ func main() {
 		if v := os.Getenv("NF_K"); v != "" {
 			fmt.Sscan(v, &k)
 		}
+		if os.Getenv("NF_NEW") != "" {
+			for _, n := range strings.Fields(referenceFuncs) {
+				pinned[n] = true
+			}
+		}
 		NP, log, err := normalFormDebug(P, pinned, k)
 		fmt.Println("pinned:", len(pinned), "err:", err, "changed:", NP != nil)
 		for _, l := range log {
@@ -187,12 +192,22 @@ func runCheck(id, tier, repo, verif string, fn ruleFn) (code int) {
 			k      int
 			pinned map[string]bool
 			what   string
+			guards bool
 		}
-		// normal forms, least intrusive first: only helpers that the reference tree does not have
-		// (freshly extracted functions), then every non-anchor helper
-		modes := []nfMode{{1, pinnedRef, "new helpers"}, {4, pinnedRef, "new helpers"}, {1, pinned, "all non-anchor helpers"}, {4, pinned, "all non-anchor helpers"}}
+		// normal forms: the helpers that the reference tree (checker/reference_funcs.txt) does not have —
+		// freshly extracted or renamed functions — are inlined, first those with one call site, then up to
+		// four; each with and without the specialisation of the caller's guard at the helper's return sites
+		modes := []nfMode{
+			{1, pinnedRef, "new helpers", true}, {4, pinnedRef, "new helpers", true},
+			{1, pinnedRef, "new helpers", false}, {4, pinnedRef, "new helpers", false},
+		}
+		if os.Getenv("VERIF_NF_ALL") != "" {
+			// development aid: also inline the helpers the reference tree already has
+			modes = append(modes, nfMode{1, pinned, "all non-anchor helpers", true}, nfMode{4, pinned, "all non-anchor helpers", true})
+		}
 		for _, md := range modes {
 			k, pinned := md.k, md.pinned
+			nfGuards = md.guards
 			NP, log, err := NormalForm(P, pinned, k, "")
 			if err != nil || NP == nil {
 				continue
@@ -213,7 +228,7 @@ func runCheck(id, tier, repo, verif string, fn ruleFn) (code int) {
 				return NP2, nil
 			})
 			if os.Getenv("VERIF_NF_DEBUG") != "" {
-				fmt.Printf("normal form k=%d: %d inlinings, %d unlisted\n", k, len(log), c2.unlisted())
+				fmt.Printf("normal form k=%d guards=%v (%s): %d inlinings, %d unlisted\n", k, md.guards, md.what, len(log), c2.unlisted())
 				for _, o := range c2.Obls {
 					if o.Status == "violated" {
 						fmt.Printf("  NF violated %s at %s: %s\n", o.Key, o.Where, o.Why)
